@@ -86,15 +86,22 @@ def classify_loop(ctx, fn, L):
             continue
         if op in ('lt', 'le'):
             el, to = to, el
+        absolute = False
         if not any(m[0] == 'call' and m[1].endswith('Instant::elapsed') for m in walk(el)):
-            continue
+            # second idiom: `Instant::now() > deadline` with the clock read afresh inside the loop and
+            # deadline = <Instant taken before the loop> + timeout
+            fresh = [m for m in walk(el) if m[0] == 'call' and m[1].endswith('Instant::now') and m[3][0] == fn.path and m[3][1] in body]
+            base = [m for m in walk(to) if m[0] == 'call' and m[1].endswith('Instant::now')]
+            if not fresh or not base or any(m[0] == 'call' and m[1].endswith('Instant::now') and m[3][1] in body for m in walk(to)):
+                continue
+            absolute = True
         exit_t = other     # the edge taken when elapsed > timeout
         if exit_t in body:
             continue
         r = fn.reachable(h, stop=outside | frozenset([b]))
         if any(src in r and src != b for (src, _d) in L['back_edges']) and b != h:
             continue
-        return 'deadline', (b, el, to, exit_t)
+        return 'deadline', (b, el, to, exit_t, absolute)
     return 'unbounded', 'no iterator bound and no deadline test on every cycle'
 
 
@@ -258,8 +265,36 @@ def _positive(fn, block, vt):
 
 
 def _deadline(ctx, planners, b, fn, L, detail, r_dl):
-    (sb, el, to, exit_t) = detail
+    (sb, el, to, exit_t, absolute) = detail
     probs = []
+    if absolute:
+        # now() > start + timeout : the start is taken in this call before the loop, the added duration is the timeout
+        starts = [m for m in walk(to) if m[0] == 'call' and m[1].endswith('Instant::now')]
+        for m in starts:
+            if m[3][0] != fn.path:
+                probs.append('the clock is started in another function')
+        adds = [m for m in walk(to) if m[0] == 'call' and m[1] in ('std::ops::Add::add', 'std::time::Instant::checked_add') and len(m[2]) == 2]
+        if len(adds) != 1:
+            probs.append('the deadline is not <Instant taken before the loop> + timeout (unrecognised shape)')
+        else:
+            dur = adds[0][2][1]
+            okd = bool(dur) and all((n[0] == 'param') or (n[0] == 'field' and all(q[0] == 'param' and q[1] == 1 for q in n[1])) for n in dur)
+            if not okd:
+                probs.append('the deadline adds %s, not the timeout parameter / field unmodified' % fmt_terms(dur)[:60])
+        for m in walk(el):
+            if m[0] in ('binop', 'unop') or (m[0] == 'call' and not m[1].endswith('Instant::now')):
+                probs.append('the current time is modified before the comparison')
+        outs = _errs_from(fn, [exit_t])
+        is_query = b.impl_trait is not None and b.name == 'solve'
+        if is_query:
+            if outs != {'Timeout'}:
+                probs.append('an expired deadline leads to %s instead of Err(Timeout)' % sorted(outs))
+        elif not outs <= {'Ok', 'Timeout'}:
+            probs.append('an expired deadline leads to %s' % sorted(outs))
+        r_dl.inst('%s: deadline test at %s (absolute deadline)' % (b.path, fn.loc(sb)), ok=not probs, site=fn.loc(sb))
+        for o, pr in enumerate(dict.fromkeys(probs)):
+            r_dl.violations.append(Violation('C06', 'C06.deadline', b.path, 'deadline', pr, loc=fn.loc(sb), ordinal=o))
+        return
     # the clock: Instant::now() of the same call, taken outside the loop
     nows = [m for m in walk(el) if m[0] == 'call' and m[1].endswith('Instant::now')]
     if not nows:
